@@ -322,13 +322,18 @@ theorem never_stale_token (cap : Nat) (ops : List (Op K C V)) (hm : AllOps MonoC
     that stored entries are fresh.
 
     The declared dependency list may depend on the snapshot (`depsOf r S`: the applicable DestinationRules,
-    VirtualServices, EnvoyFilters are found in the snapshot), as the real `DependentConfigs()` does. -/
+    VirtualServices, EnvoyFilters are found in the snapshot), as the real `DependentConfigs()` does.
+
+    `globals` is the set G of inputs that are neither declared nor versioned in a key and are invalidated by
+    `ClearAll` only (in istiod: MeshConfig, mesh networks, the ambient `Address` index, the removal of an endpoint
+    shard / every `Forced` push). The discipline demands that they change at `ClearAll` only. -/
 structure Discipline (K C V A R X : Type) where
   key : A → (C → X) → K
   read : A → R
   depsOf : R → (C → X) → List C
   gen : R → (C → X) → V
   W : Nat → C → X
+  globals : List C
 
 variable {A R X : Type}
 
@@ -337,10 +342,13 @@ variable {A R X : Type}
     from for request `a` and the snapshot `S'` of a reader `b` agree on the entry's declared dependencies, and
     the two keys - each computed on its own snapshot - are equal, then generation for `b` on `S'` yields what was
     generated for `a` on `S`. It contains key completeness across proxies (`S = S'`) and key versioning of every
-    config generation reads beyond the declared dependencies. -/
+    config generation reads beyond the declared dependencies **and beyond the global inputs `G`**: the two
+    snapshots are only compared when they agree on `G` (an input that nothing but `ClearAll` invalidates - the
+    mesh config, say - is neither declared nor in any key; quantifying over snapshots that differ in it would make
+    the hypothesis false for the real system, see `D2`). -/
 def Discipline.KeyDetermines (D : Discipline K C V A R X) : Prop :=
-  ∀ a b S S', (∀ d ∈ D.depsOf (D.read a) S, S d = S' d) → D.key a S = D.key b S' →
-    D.gen (D.read a) S = D.gen (D.read b) S'
+  ∀ a b S S', (∀ g ∈ D.globals, S g = S' g) → (∀ d ∈ D.depsOf (D.read a) S, S d = S' d) →
+    D.key a S = D.key b S' → D.gen (D.read a) S = D.gen (D.read b) S'
 
 /-- What one writer / invalidator must respect (side condition of an operation, relative to the
     invalidations executed before it).
@@ -348,17 +356,20 @@ def Discipline.KeyDetermines (D : Discipline K C V A R X) : Prop :=
     * a writer stores, under the key of its request `a` computed on its snapshot `W snap` (`snap` =
       number of accepted changes its data reflects), with the dependencies `depsOf (read a) (W snap)`, the value
       generated from that snapshot, and its token is **older than every already executed invalidation of
-      one of its dependencies that the snapshot does not reflect** - this is what "the token is read no
-      later than the snapshot" gives;
+      one of its dependencies - and every already executed `ClearAll` - that the snapshot does not reflect** -
+      this is what "the token is read no later than the snapshot" gives;
     * an invalidation reads a monotone clock, and a `Clear cs` changes the content of the configs in
-      `cs` only (`ClearAll` may change everything). -/
+      `cs` only **and of no global input** (`ClearAll` may change everything: the inputs in `globals` change at
+      `ClearAll` only). -/
 def Coherent (D : Discipline K C V A R X) (hist : List (Inval C)) : Op K C V → Prop
   | .add k v (some tok) deps =>
     v = none ∨ ∃ a snap, k = D.key a (D.W snap) ∧ deps = D.depsOf (D.read a) (D.W snap) ∧ snap ≤ hist.length ∧
       v = some (D.gen (D.read a) (D.W snap)) ∧
-      ∀ j (hj : j < hist.length), snap ≤ j → (∃ d ∈ deps, (hist[j]).covers d = true) → tok < (hist[j]).time
+      ∀ j (hj : j < hist.length), snap ≤ j →
+        ((∃ d ∈ deps, (hist[j]).covers d = true) ∨ (hist[j]).cover = none) → tok < (hist[j]).time
   | .clear now cs _ =>
-    (∀ i ∈ hist, i.time ≤ now) ∧ ∀ d, d ∉ cs → D.W (hist.length + 1) d = D.W hist.length d
+    (∀ i ∈ hist, i.time ≤ now) ∧ (∀ d, d ∉ cs → D.W (hist.length + 1) d = D.W hist.length d) ∧
+      ∀ g ∈ D.globals, D.W (hist.length + 1) g = D.W hist.length g
   | .clearAll now _ => ∀ i ∈ hist, i.time ≤ now
   | _ => True
 
@@ -389,15 +400,48 @@ theorem world_stable {D : Discipline K C V A R X} {hist : List (Inval C)} (hf : 
     have h2 := ih (by omega) d hd
     rw [← h2, ← h1]; rfl
 
+/-- frame condition for the global inputs: only a `ClearAll` changes them -/
+def GFrame (D : Discipline K C V A R X) (hist : List (Inval C)) : Prop :=
+  ∀ j (hj : j < hist.length), (hist[j]).cover ≠ none → ∀ g ∈ D.globals, D.W (j + 1) g = D.W j g
+
+theorem globals_stable {D : Discipline K C V A R X} {hist : List (Inval C)} (hf : GFrame D hist)
+    (snap : Nat) (hun : ∀ j (hj : j < hist.length), snap ≤ j → (hist[j]).cover ≠ none) :
+    ∀ m, snap + m ≤ hist.length → ∀ g ∈ D.globals, D.W (snap + m) g = D.W snap g := by
+  intro m
+  induction m with
+  | zero => intro _ g _; rfl
+  | succ m ih =>
+    intro hle g hg
+    have hj : snap + m < hist.length := by omega
+    have h1 := hf (snap + m) hj (hun (snap + m) hj (by omega)) g hg
+    have h2 := ih (by omega) g hg
+    rw [← h2, ← h1]; rfl
+
+theorem GFrame.snoc {D : Discipline K C V A R X} {hist : List (Inval C)} (hf : GFrame D hist)
+    (x : Inval C) (hx : x.cover ≠ none → ∀ g ∈ D.globals, D.W (hist.length + 1) g = D.W hist.length g) :
+    GFrame D (hist ++ [x]) := by
+  intro j hj hc g hg
+  simp only [List.length_append, List.length_singleton] at hj
+  by_cases hlt : j < hist.length
+  · rw [List.getElem_append_left hlt] at hc
+    exact hf j hlt hc g hg
+  · have : j = hist.length := by omega
+    subst this
+    rw [List.getElem_append_right (Nat.le_refl _)] at hc
+    simp only [Nat.sub_self, List.getElem_cons_zero] at hc
+    exact hx hc g hg
+
 /-- Ghost invariant of the disciplined system: every stored value was generated, for some request `a` and from
     some snapshot `S`, under the key `key a S`, and `S` **agrees with the current world on every declared
-    dependency** of the entry. (Not: "is what generation yields now" - see `Discipline`.) -/
+    dependency** of the entry **and on every global input**. (Not: "is what generation yields now" - see
+    `Discipline`.) -/
 structure FreshInv (D : Discipline K C V A R X) (c : Cache K C V) (hist : List (Inval C)) : Prop where
   tokinv : TokInv c hist
   frame : Frame D hist
+  gframe : GFrame D hist
   origin : ∀ e ∈ c.store, ∀ v, e.val = some v →
     ∃ a S, e.key = D.key a S ∧ e.deps = D.depsOf (D.read a) S ∧ v = D.gen (D.read a) S ∧
-      ∀ d ∈ e.deps, S d = D.W hist.length d
+      (∀ d ∈ e.deps, S d = D.W hist.length d) ∧ ∀ g ∈ D.globals, S g = D.W hist.length g
 
 theorem Frame.snoc_clear {D : Discipline K C V A R X} {hist : List (Inval C)} (hf : Frame D hist)
     (x : Inval C) (hx : ∀ d, x.covers d = false → D.W (hist.length + 1) d = D.W hist.length d) :
@@ -419,32 +463,38 @@ theorem FreshInv.step {D : Discipline K C V A R X} {c : Cache K C V}
   have htok := h.tokinv.step op hc.mono
   cases op with
   | get k =>
-    refine ⟨htok, by simpa [Op.inval] using h.frame, ?_⟩
+    refine ⟨htok, by simpa [Op.inval] using h.frame, by simpa [Op.inval] using h.gframe, ?_⟩
     intro e he v hv
     simpa [Op.inval] using h.origin e (mem_get_store he) v hv
   | flush =>
-    refine ⟨htok, by simpa [Op.inval] using h.frame, ?_⟩
+    refine ⟨htok, by simpa [Op.inval] using h.frame, by simpa [Op.inval] using h.gframe, ?_⟩
     intro e he v hv
     simpa [Op.inval] using h.origin e (mem_flush_store he) v hv
   | clearAll now newCap =>
-    refine ⟨htok, ?_, fun e he => by cases he⟩
-    exact h.frame.snoc_clear ⟨now, none⟩ (fun d hcv => by simp [Inval.covers] at hcv)
+    refine ⟨htok, ?_, ?_, fun e he => by cases he⟩
+    · exact h.frame.snoc_clear ⟨now, none⟩ (fun d hcv => by simp [Inval.covers] at hcv)
+    · exact h.gframe.snoc ⟨now, none⟩ (fun hne => absurd rfl hne)
   | clear now cs ord =>
-    refine ⟨htok, ?_, ?_⟩
+    refine ⟨htok, ?_, ?_, ?_⟩
     · apply h.frame.snoc_clear ⟨now, some cs⟩
       intro d hcv
       simp [Inval.covers] at hcv
-      exact hc.2 d hcv
+      exact hc.2.1 d hcv
+    · exact h.gframe.snoc ⟨now, some cs⟩ (fun _ => hc.2.2)
     · intro e he v hv
-      obtain ⟨a, S, hk, hd, hgen, hag⟩ := h.origin e (mem_clear_store he).1 v hv
-      refine ⟨a, S, hk, hd, hgen, ?_⟩
-      intro d hdm
-      simp only [Op.inval, List.length_append, List.length_singleton]
-      -- the surviving entry depends on nothing that was cleared: the new world agrees on its dependencies
-      rw [hag d hdm]
-      exact (hc.2 d ((clear_effective h.tokinv.inv.idx now cs ord).1 e he d hdm)).symm
+      obtain ⟨a, S, hk, hd, hgen, hag, hgl⟩ := h.origin e (mem_clear_store he).1 v hv
+      refine ⟨a, S, hk, hd, hgen, ?_, ?_⟩
+      · intro d hdm
+        simp only [Op.inval, List.length_append, List.length_singleton]
+        -- the surviving entry depends on nothing that was cleared: the new world agrees on its dependencies
+        rw [hag d hdm]
+        exact (hc.2.1 d ((clear_effective h.tokinv.inv.idx now cs ord).1 e he d hdm)).symm
+      · intro g hg
+        simp only [Op.inval, List.length_append, List.length_singleton]
+        rw [hgl g hg]
+        exact (hc.2.2 g hg).symm
   | add k v start deps =>
-    refine ⟨htok, by simpa [Op.inval] using h.frame, ?_⟩
+    refine ⟨htok, by simpa [Op.inval] using h.frame, by simpa [Op.inval] using h.gframe, ?_⟩
     intro e he w hw
     simp only [Op.inval, List.append_nil]
     rcases mem_add_store he with ho | ⟨tok, hst, hle, rfl⟩
@@ -459,17 +509,28 @@ theorem FreshInv.step {D : Discipline K C V A R X} {c : Cache K C V}
           cases hcv : (hist[j]).covers d with
           | false => rfl
           | true =>
-            have h1 := hcoh j hj hsj ⟨d, hd, hcv⟩
+            have h1 := hcoh j hj hsj (Or.inl ⟨d, hd, hcv⟩)
             have h2 := h.tokinv.tok (hist[j]) (List.getElem_mem hj)
             omega
+        -- ... and no `ClearAll` at all was executed that the snapshot does not reflect
+        have hng : ∀ j (hj : j < hist.length), snap ≤ j → (hist[j]).cover ≠ none := by
+          intro j hj hsj hcn
+          have h1 := hcoh j hj hsj (Or.inr hcn)
+          have h2 := h.tokinv.tok (hist[j]) (List.getElem_mem hj)
+          omega
         rw [hval] at hw
         injection hw with hw
-        refine ⟨a, D.W snap, hk, hdeps, hw.symm, ?_⟩
-        intro d hd
-        have := world_stable h.frame snap deps hun (hist.length - snap) (by omega) d hd
-        rw [← this]
-        congr 1
-        omega
+        refine ⟨a, D.W snap, hk, hdeps, hw.symm, ?_, ?_⟩
+        · intro d hd
+          have := world_stable h.frame snap deps hun (hist.length - snap) (by omega) d hd
+          rw [← this]
+          congr 1
+          omega
+        · intro g hg
+          have := globals_stable h.gframe snap hng (hist.length - snap) (by omega) g hg
+          rw [← this]
+          congr 1
+          omega
 
 theorem FreshInv.run {D : Discipline K C V A R X} {c : Cache K C V}
     {hist : List (Inval C)} (h : FreshInv D c hist) (ops : List (Op K C V))
@@ -482,33 +543,35 @@ theorem FreshInv.run {D : Discipline K C V A R X} {c : Cache K C V}
 
 theorem FreshInv.init (D : Discipline K C V A R X) (cap : Nat) : FreshInv D (Cache.new cap) [] :=
   ⟨⟨Inv.new cap, fun i hi => (by cases hi), fun e he => (by cases he)⟩,
-   fun j hj => (by cases hj), fun e he => (by cases he)⟩
+   fun j hj => (by cases hj), fun j hj => (by cases hj), fun e he => (by cases he)⟩
 
 /-- **never_stale.** With coherent writers, in every reachable state every stored value was generated (for
     some request, under the entry's key) from a snapshot that **agrees with the current world on every declared
-    dependency of the entry** - under any interleaving of Get/Add/Clear/ClearAll/Flush/eviction by any number of
+    dependency of the entry and on every global input** - under any interleaving of Get/Add/Clear/ClearAll/Flush/eviction by any number of
     writers. No hypothesis about the generator or the key is needed for this; it does not say the value is what
     generation yields now (generation may read more than it declares, see `KeyDetermines`). -/
 theorem never_stale (D : Discipline K C V A R X) (cap : Nat)
     (ops : List (Op K C V)) (hc : AllOps (Coherent D) [] ops) :
     ∀ e ∈ ((Cache.new cap).run ops).store, ∀ v, e.val = some v →
       ∃ a S, e.key = D.key a S ∧ e.deps = D.depsOf (D.read a) S ∧ v = D.gen (D.read a) S ∧
-        ∀ d ∈ e.deps, S d = D.W (histOf ops).length d := by
+        (∀ d ∈ e.deps, S d = D.W (histOf ops).length d) ∧ ∀ g ∈ D.globals, S g = D.W (histOf ops).length g := by
   have := (FreshInv.init D cap).run ops hc
   simp only [List.nil_append] at this
   exact this.origin
 
 /-- **cache_invisible.** Under `KeyDetermines`: whatever `Get` returns for proxy `b` - asking with the key it
     computes on the *current* world - is exactly what a fresh generation for `b` on the current world returns.
-    (Readers that key on an older snapshot are not covered.) -/
+    (Readers that key on an older snapshot are not covered.) The inputs in `D.globals` may change - at `ClearAll`,
+    which the discipline demands (`Coherent`): the Forced-push, MeshConfig, networks, `Address` and `DeleteShard`
+    invalidations are inside this theorem, see `global_input_witness`. -/
 theorem cache_invisible (D : Discipline K C V A R X) (hkd : D.KeyDetermines)
     (cap : Nat) (ops : List (Op K C V)) (hc : AllOps (Coherent D) [] ops) (b : A) (v : V)
     (hget : ((Cache.new cap).run ops).getVal (D.key b (D.W (histOf ops).length)) = some v) :
     v = D.gen (D.read b) (D.W (histOf ops).length) := by
   obtain ⟨e, he, hk, hv⟩ := getVal_some hget
-  obtain ⟨a, S, hka, hd, hgen, hag⟩ := never_stale D cap ops hc e he v hv
+  obtain ⟨a, S, hka, hd, hgen, hag, hgl⟩ := never_stale D cap ops hc e he v hv
   rw [hgen]
-  exact hkd a b S _ (fun d hdm => hag d (hd ▸ hdm)) (hka.symm.trans hk)
+  exact hkd a b S _ hgl (fun d hdm => hag d (hd ▸ hdm)) (hka.symm.trans hk)
 
 /-! ## Sharing across proxies is exactly key (in)completeness -/
 
@@ -544,10 +607,10 @@ end
     the generated value is that content; the key is the request itself. -/
 def D0 : Discipline Nat Nat Nat Nat Nat Nat :=
   { key := fun a _ => a, read := fun a => a, depsOf := fun _ _ => [0], gen := fun _ S => S 0,
-    W := fun n d => if d = 0 then n else 0 }
+    W := fun n d => if d = 0 then n else 0, globals := [] }
 
 theorem D0_keyDetermines : D0.KeyDetermines := by
-  intro a b S S' hag hk
+  intro a b S S' _ hag hk
   exact hag 0 (by simp [D0])
 
 /-- a writer that only promises to have generated from *some* earlier snapshot (no relation between
@@ -557,7 +620,8 @@ def Uncoordinated (D : Discipline Nat Nat Nat Nat Nat Nat) (hist : List (Inval N
     v = none ∨ ∃ a snap, k = D.key a (D.W snap) ∧ deps = D.depsOf (D.read a) (D.W snap) ∧ snap ≤ hist.length ∧
       v = some (D.gen (D.read a) (D.W snap))
   | .clear now cs _ =>
-    (∀ i ∈ hist, i.time ≤ now) ∧ ∀ d, d ∉ cs → D.W (hist.length + 1) d = D.W hist.length d
+    (∀ i ∈ hist, i.time ≤ now) ∧ (∀ d, d ∉ cs → D.W (hist.length + 1) d = D.W hist.length d) ∧
+      ∀ g ∈ D.globals, D.W (hist.length + 1) g = D.W hist.length g
   | .clearAll now _ => ∀ i ∈ hist, i.time ≤ now
   | _ => True
 
@@ -579,7 +643,7 @@ def staleSchedule : List (Op Nat Nat Nat) :=
 theorem never_stale_incoherent_witness : ¬ InvisibleWithoutTokenDiscipline := by
   intro h
   have hadm : AllOps (Uncoordinated D0) [] staleSchedule := by
-    refine ⟨⟨fun i hi => (by cases hi), ?_⟩, ?_, trivial, trivial⟩
+    refine ⟨⟨fun i hi => (by cases hi), ?_, fun g hg => (by cases hg)⟩, ?_, trivial, trivial⟩
     · intro d hd
       have : d ≠ 0 := by simpa using hd
       simp [D0, this]
@@ -595,7 +659,7 @@ example : ((Cache.new 3 : Cache Nat Nat Nat).run
 example : AllOps (Coherent D0) [] ([.add 7 (some 0) (some 5) [0], .get 7, .clear 10 [0] [7],
     .add 7 (some 0) (some 5) [0], .add 7 (some 1) (some 10) [0], .flush, .get 7] : List (Op Nat Nat Nat)) := by
   refine ⟨Or.inr ⟨7, 0, rfl, rfl, by simp, by simp [D0], fun j hj => by simp at hj⟩, trivial, ?_, ?_, ?_, trivial, trivial, trivial⟩
-  · refine ⟨fun i hi => (by cases hi), ?_⟩
+  · refine ⟨fun i hi => (by cases hi), ?_, fun g hg => (by cases hg)⟩
     intro d hd
     have : d ≠ 0 := by simpa using hd
     simp [D0, this, Op.inval]
@@ -614,7 +678,8 @@ example : ((Cache.new 3 : Cache Nat Nat Nat).run [.add 7 (some 0) (some 5) [0], 
 
 /-- A key that forgets an attribute generation reads (here: the key is constant). -/
 def Dbad : Discipline Nat Nat Nat Nat Nat Nat :=
-  { key := fun _ _ => 0, read := fun a => a, depsOf := fun _ _ => [], gen := fun r _ => r, W := fun _ _ => 0 }
+  { key := fun _ _ => 0, read := fun a => a, depsOf := fun _ _ => [], gen := fun r _ => r, W := fun _ _ => 0,
+    globals := [] }
 
 /-- **key_incomplete_witness.** With an incomplete key (`KeyDetermines` fails), proxy 2 is served the resource
     generated for proxy 1 although every writer is coherent. -/
@@ -626,7 +691,7 @@ theorem key_incomplete_witness :
     Dbad.gen (Dbad.read 2) (Dbad.W 0) = 2 := by
   refine ⟨?_, ?_, by decide, rfl⟩
   · intro h
-    have := h 1 2 (fun _ => 0) (fun _ => 0) (fun _ _ => rfl) rfl
+    have := h 1 2 (fun _ => 0) (fun _ => 0) (fun _ _ => rfl) (fun _ _ => rfl) rfl
     simp [Dbad] at this
   · exact ⟨Or.inr ⟨1, 0, rfl, rfl, by simp, rfl, fun j hj => by simp at hj⟩, trivial⟩
 
@@ -638,10 +703,10 @@ PeerAuthentication without naming it in `DependentConfigs()`; the key carries th
 
 def D1 : Discipline (Nat × Nat) Nat (Nat × Nat) Nat Nat Nat :=
   { key := fun a S => (a, S 1), read := fun a => a, depsOf := fun _ _ => [0], gen := fun _ S => (S 0, S 1),
-    W := fun n d => if d = 1 then n else 0 }
+    W := fun n d => if d = 1 then n else 0, globals := [] }
 
 theorem D1_keyDetermines : D1.KeyDetermines := by
-  intro a b S S' hag hk
+  intro a b S S' _ hag hk
   have h0 : S 0 = S' 0 := hag 0 (by simp [D1])
   have h1 : S 1 = S' 1 := by simpa [D1] using congrArg Prod.snd hk
   simp [D1, h0, h1]
@@ -667,11 +732,72 @@ theorem versioned_key_witness :
     ((Cache.new 3 : Cache (Nat × Nat) Nat (Nat × Nat)).run versionedSchedule).getVal (D1.key 7 (D1.W 1)) = none ∧
     ((Cache.new 3 : Cache (Nat × Nat) Nat (Nat × Nat)).run versionedSchedule).getVal (D1.key 7 (D1.W 0)) = some (0, 0) ∧
     D1.gen (D1.read 7) (D1.W 1) = (0, 1) := by
-  refine ⟨⟨Or.inr ⟨7, 0, by simp [D1], rfl, by simp, by simp [D1], fun j hj => by simp at hj⟩, ⟨fun i hi => (by cases hi), ?_⟩, trivial⟩,
+  refine ⟨⟨Or.inr ⟨7, 0, by simp [D1], rfl, by simp, by simp [D1], fun j hj => by simp at hj⟩, ⟨fun i hi => (by cases hi), ?_, fun g hg => (by cases hg)⟩, trivial⟩,
     by decide, by decide, by decide, by simp [D1]⟩
   intro d hd
   have : d ≠ 1 := by simpa using hd
   simp [D1, this, Op.inval]
+
+/-! ### Global inputs: neither declared nor versioned in the key, invalidated by `ClearAll` only
+
+`D2`: generation reads config `0` (declared) **and config `1` (global: not declared, not in the key)** - like every
+real generator reads MeshConfig, the mesh networks or the ambient `Address` index. A change of config `1` comes with
+`ClearAll` (`Forced` push, `ConfigUpdate` of kind `Address`, `DeleteShard`). -/
+
+def D2 : Discipline Nat Nat (Nat × Nat) Nat Nat Nat :=
+  { key := fun a _ => a, read := fun a => a, depsOf := fun _ _ => [0], gen := fun _ S => (S 0, S 1),
+    W := fun n d => if d = 1 then n else 0, globals := [1] }
+
+theorem D2_keyDetermines : D2.KeyDetermines := by
+  intro a b S S' hgl hag hk
+  have h0 : S 0 = S' 0 := hag 0 (by simp [D2])
+  have h1 : S 1 = S' 1 := hgl 1 (by simp [D2])
+  simp [D2, h0, h1]
+
+/-- the hypothesis quantified over ALL pairs of snapshots (the previous formulation) is false for `D2` - as it is
+    for istiod -/
+theorem D2_not_keyDetermines_unrestricted :
+    ¬ ∀ a b S S', (∀ d ∈ D2.depsOf (D2.read a) S, S d = S' d) → D2.key a S = D2.key b S' →
+        D2.gen (D2.read a) S = D2.gen (D2.read b) S' := by
+  intro h
+  have := h 7 7 (fun _ => 0) (fun d => if d = 1 then 1 else 0) (by simp [D2]) rfl
+  simp [D2] at this
+
+/-- an entry is generated on world 0; the global input changes and `ClearAll` runs; a writer that started before
+    the `ClearAll` (token 5) arrives late with its old value; a new writer generates on world 1; a reader asks -/
+def globalSchedule : List (Op Nat Nat (Nat × Nat)) :=
+  [.add 7 (some (0, 0)) (some 5) [0], .clearAll 10 3, .add 7 (some (0, 0)) (some 5) [0],
+   .add 7 (some (0, 1)) (some 10) [0], .get 7]
+
+/-- the same change of the global input announced by a targeted `Clear` of another config only -/
+def globalScheduleBad : List (Op Nat Nat (Nat × Nat)) :=
+  [.add 7 (some (0, 0)) (some 5) [0], .clear 10 [5] [], .get 7]
+
+/-- **global_input_witness.** The schedule that changes a global input at `ClearAll` is coherent, `D2` satisfies
+    `KeyDetermines`, so `cache_invisible` applies: the reader gets what generation yields on the NEW world (the late
+    writer was rejected). The same change announced by a targeted `Clear` is not coherent - and there the reader is
+    served the value generated on the old world. -/
+theorem global_input_witness :
+    AllOps (Coherent D2) [] globalSchedule ∧
+    ((Cache.new 3 : Cache Nat Nat (Nat × Nat)).run globalSchedule).getVal (D2.key 7 (D2.W 1)) = some (0, 1) ∧
+    D2.gen (D2.read 7) (D2.W 1) = (0, 1) ∧
+    ¬ AllOps (Coherent D2) [] globalScheduleBad ∧
+    ((Cache.new 3 : Cache Nat Nat (Nat × Nat)).run globalScheduleBad).getVal (D2.key 7 (D2.W 1)) = some (0, 0) := by
+  refine ⟨⟨?_, ?_, ?_, ?_, trivial, trivial⟩, by decide, by simp [D2], ?_, by decide⟩
+  · exact Or.inr ⟨7, 0, rfl, rfl, by simp, by simp [D2], fun j hj => by simp at hj⟩
+  · intro i hi; cases hi
+  · refine Or.inr ⟨7, 0, rfl, rfl, by simp [Op.inval], by simp [D2], ?_⟩
+    intro j hj _ _
+    simp [Op.inval] at hj
+    subst hj
+    simp [Op.inval]
+  · refine Or.inr ⟨7, 1, rfl, rfl, by simp [Op.inval], by simp [D2], ?_⟩
+    intro j hj hsj
+    simp [Op.inval] at hj
+    omega
+  · intro h
+    have := h.2.1.2.2 1 (by simp [D2])
+    simp [D2, Op.inval] at this
 
 /-! ## The reverse index does not leak: every edge is live or pending in the evict queue -/
 
@@ -1088,14 +1214,15 @@ theorem proj_clear_coherent (D : Discipline K C V A R X) (isPA : C → Bool) (m 
 
 /-- **never_stale lifted to `XdsCacheImpl`.** For every sequence of calls on `XdsCacheImpl` whose projected
     history of typed cache `t` is coherent, every value stored in that cache was generated from a snapshot that
-    agrees with the current world on the entry's declared dependencies. -/
+    agrees with the current world on the entry's declared dependencies and on the global inputs. -/
 theorem impl_never_stale (D : Discipline K C V A R X) (isPA : C → Bool)
     (maxSize : Int) (cdsOn rdsOn : Bool) (iops : List (IOp K C V)) (t : Ty) (c : Cache K C V)
     (hc : (Impl.run isPA (Impl.new maxSize cdsOn rdsOn : Impl K C V) iops).typed t = some c)
     (hcoh : AllOps (Coherent D) [] (projRun isPA maxSize t iops)) :
     ∀ e ∈ c.store, ∀ v, e.val = some v →
       ∃ a S, e.key = D.key a S ∧ e.deps = D.depsOf (D.read a) S ∧ v = D.gen (D.read a) S ∧
-        ∀ d ∈ e.deps, S d = D.W (histOf (projRun isPA maxSize t iops)).length d := by
+        (∀ d ∈ e.deps, S d = D.W (histOf (projRun isPA maxSize t iops)).length d) ∧
+        ∀ g ∈ D.globals, S g = D.W (histOf (projRun isPA maxSize t iops)).length g := by
   rw [impl_reachable_typed isPA maxSize cdsOn rdsOn iops t c hc]
   exact never_stale D _ _ hcoh
 
